@@ -4,7 +4,7 @@
 
    C17_valid and C17_exhaustive below are the general theorems for the traversal: every value, every limit, every
    script / every valid order.  For whole queries (wildcard and filter selectors shuffle object members too):
-   Spec/NondetQ.v nd_permitted, Model/NdEval.v m_find_nd; C17_query_valid at the end of this file. *)
+   Spec/NondetQ.v nd_permitted, Model/NdEval.v m_find_nd; C17_query_valid and C17_query_exhaustive at the end of this file. *)
 From JP Require Import Base.Json Model.NdVisit Spec.Sem Spec.Nondet Proofs.NdSpec Proofs.NdSim.
 
 (* Whatever the random choices (one script number per random.randrange / random.shuffle call, any numbers, any length),
@@ -128,3 +128,31 @@ Theorem C17_query_same_nodes : forall cfg, reg_ok (reg cfg) = true -> (1 <= max_
   m_find_nd cfg sup q v = Ok r -> Permutation r (sem (reg cfg) (rx cfg) q v).
 Proof. intros cfg Hr HN sup q v r Hwt Hg E. apply nd_permitted_perm. exact (nd_query_valid cfg Hr HN sup q v r Hwt Hg E). Qed.
 Print Assumptions C17_query_same_nodes.
+
+(* Conversely, for whole queries too, the mode is exhaustive: every nodelist RFC 9535 permits for the query on the value is returned for some
+   supply of choice scripts (Proofs/NdQuery.v: a supply is assembled from the derivation of nd_permitted - the permutation number wanted for every
+   shuffle (apply_perm_onto), the script of C17_exhaustive for every traversal, which holds from any node by relocation (Proofs/NdReloc.v: the
+   traversal started at l ++ loc does what it does at loc with every location prefixed by l) - and the scripts not yet used are handed on). *)
+Theorem C17_query_exhaustive : forall cfg, reg_ok (reg cfg) = true -> (1 <= max_depth cfg)%nat ->
+  forall q v r, wt_query (reg cfg) q = true -> good cfg v ->
+  nd_permitted (reg cfg) (rx cfg) q v r -> exists sup, m_find_nd cfg sup q v = Ok r.
+Proof. exact nd_query_exhaustive. Qed.
+Print Assumptions C17_query_exhaustive.
+From JP Require Import Proofs.NdReloc.
+Theorem C17_exhaustive_at : forall limit loc v o, wf_json v = true -> (1 <= limit)%nat -> (nesting v <= limit)%nat ->
+  Permutation o (descendants loc v) -> valid_order (loc, v) (map fst o) = true ->
+  exists script ns, nd_visit limit script (loc, v) = Ok ns /\ filter isc ns = filter isc o.
+Proof. exact nd_exhaustive_at. Qed.
+Print Assumptions C17_exhaustive_at.
+(* the relation is not the deterministic function in disguise: $.* on {"a":1,"b":2} may give b before a *)
+Example C17_query_nonvacuous :
+  let v := JObj [(nm 97, JNum (NInt 1)); (nm 98, JNum (NInt 2))] in
+  let r := [([KName (nm 98)], JNum (NInt 2)); ([KName (nm 97)], JNum (NInt 1))] in
+  nd_permitted [] (fun _ _ _ => false) [Child [SWild]] v r /\ r <> sem [] (fun _ _ _ => false) [Child [SWild]] v.
+Proof.
+  intros v r. split; [|vm_compute; discriminate].
+  unfold nd_permitted. apply (NQ_cons _ _ _ (Child [SWild]) [] [([], v)] r r); [|constructor].
+  cbn [NondetQ.nd_seg]. rewrite <- (app_nil_r r). constructor; [|constructor].
+  unfold NondetQ.nd_sels. rewrite <- (app_nil_r r). constructor; [|constructor].
+  cbn [NondetQ.nd_sel]. unfold kids_order. cbn. apply perm_swap.
+Qed.
